@@ -1,5 +1,5 @@
 """C15 — parse-time callbacks mirror the document and steer storage: the skip_depth discipline."""
-from ..facts import Broken, strip, const, walk_eval, macro_name
+from ..facts import Broken, strip, const, walk, walk_eval, macro_name
 from ..interp import path, av_const, AV
 from .. import cfgq, parserai
 from ..parserai import SKIP
@@ -181,6 +181,7 @@ def run(prog, chk):
     from . import c03
     prop, res = c03.analysis(prog)
     c03.verdict_rule(prog, r5, ("handler",), res)
+    skip_noninterference(prog, chk)
     chk.extra_cov["contexts"] = {w: len(a2.runs) for w, a2 in W.items()}
     chk.extra_cov["skip_depth_writers"] = sorted(a.writers)
 
@@ -188,3 +189,79 @@ def run(prog, chk):
 def ctx_str(ctx):
     params, skip = ctx
     return ",".join("%s=%s" % p for p in params) + ";depth %s" % (skip,)
+
+
+def _is_errcb(n):
+    return n.get("k") == "call" and n.get("callee") is None and n.get("fn") is not None \
+        and (path(strip(n["fn"])) or "").endswith("error_callback")
+
+
+def skip_noninterference(prog, chk):
+    """R6: skipping suppresses callbacks and storage, not syntax checking.  A bookkeeping local of a parser production
+    (never assigned from a call result: flags, counters, cursors) whose value decides whether an error is reported must
+    therefore be maintained identically whether or not the parser is skipping: none of its assignments may be reachable
+    only through one outcome of a test of skip_depth."""
+    r6 = chk.rule("R6-error-state-independent-of-skipping", "no bookkeeping variable that decides an error report is assigned only "
+                  "under one outcome of a skip_depth test", floor=6)
+    n_vars = 0
+    for fn in prog.all_functions():
+        if fn.unit != "parser.c":
+            continue
+        errs = [(b.id, i, n) for (b, i, r, n) in fn.eval_sites("call") if _is_errcb(n)]
+        if not errs:
+            continue
+        skiptests = [blk.id for blk in fn.blocks.values()
+                     if len(blk.succs) == 2 and cfgq.cond_of(fn, blk) is not None
+                     and any((path(x) or "").endswith("skip_depth") for x in walk(cfgq.cond_of(fn, blk)))]
+        locs = {l["name"] for l in fn.locals}
+        asg = {}
+        from_call = set()
+        for (b, i, r, n) in fn.eval_sites():
+            p = None
+            rhs = None
+            if n.get("k") == "asg":
+                p, rhs = path(strip(n.get("lhs"))), n.get("rhs")
+            elif n.get("k") == "un" and n.get("op") in ("post++", "post--", "pre++", "pre--"):
+                p = path(strip(n.get("e")))
+            elif n.get("k") == "un" and n.get("op") == "&":
+                q = path(strip(n.get("e")))
+                if q in locs:
+                    from_call.add(q)        # address taken: may be written by a callee
+                continue
+            if p not in locs:
+                continue
+            asg.setdefault(p, []).append((b.id, i, n))
+            if rhs is not None and any(x.get("k") == "call" for x in walk(rhs)):
+                from_call.add(p)
+        for v in sorted(set(asg) - from_call):
+            sites = set()
+            for blk in fn.blocks.values():
+                c = cfgq.cond_of(fn, blk)
+                if c is None or len(blk.succs) < 2 or not any(x.get("k") == "ref" and path(x) == v for x in walk(c)):
+                    continue
+                for idx in range(len(blk.succs)):
+                    for (eb, ei, en) in errs:
+                        if cfgq.must_pass_edge(fn, eb, [(blk.id, idx)]):
+                            sites.add(en.get("l"))
+            if not sites:
+                continue
+            n_vars += 1
+            bad = None
+            for (ab, ai, an) in asg[v]:
+                for t in skiptests:
+                    for idx in (0, 1):
+                        if cfgq.must_pass_edge(fn, ab, [(t, idx)]):
+                            if bad is None or (fn.blocks[t].term.get("l") or 0) > (fn.blocks[bad[1]].term.get("l") or 0):
+                                bad = (an, t, idx)
+            key = "%s:%s" % (fn.name, v)
+            if bad:
+                an, t, idx = bad
+                r6.violation(fn.file, fn.name, an.get("l"), "error-state-under-skip:%s:%s" % (fn.name, v),
+                             "`%s` decides whether the error(s) at L%s are reported, but its assignment at L%s is reached only "
+                             "through the %s outcome of the skip_depth test at L%s: while skipping the variable is not maintained, "
+                             "so a well-formed but skipped construct is diagnosed differently from an unskipped one"
+                             % (v, sorted(sites), an.get("l"), "true" if idx == 0 else "false", fn.blocks[t].term.get("l")))
+            else:
+                r6.ok(key, "decides error site(s) L%s; %d assignment(s), none under a skip test" % (sorted(sites), len(asg[v])))
+    if n_vars < 6:
+        raise Broken("only %d error-deciding bookkeeping variables found in parser.c" % n_vars)
